@@ -16,7 +16,7 @@ LEVEL = "exploration"
 NEEDS = ["cli", "shim"]
 RULE = ("call sets (1-40 samples, 0-300 records; a fifth of them with a ploidy error somewhere, so that failing runs are compared too) x "
         "configurations drawn from container {vcf, vcf.gz, bcf, raw bcf} x transport {named pipe given as a path, /dev/stdin, path (file names with conventional, unconventional and misleading extensions), stdin} x --threads {1,2,3,4,8,16} x BGZF layout {single, "
-        "one record per block, random cuts, mid-record cuts, stored blocks, empty blocks incl. a leading one, doubled EOF, 7-byte blocks, a 1-2 byte first block, non-default MTIME/XFL/OS header bytes} x sample map; the same VCF text without the line feed after its last line (plain and BGZF); plus "
+        "one record per block, random cuts, mid-record cuts, stored blocks, empty blocks incl. a leading one, doubled EOF, no EOF marker, an EOF marker written as a stored block, 7-byte blocks, a 1-2 byte first block, non-default MTIME/XFL/OS header bytes} x sample map; the same VCF text without the line feed after its last line (plain and BGZF); plus "
         "repetitions of one configuration, stdin fed through a pipe with a tiny first write, environment changes (LANG, LC_ALL, TZ, HOME unset, cwd, RUST_LOG, NO_COLOR), `taskset -c 0` with 16 "
         "threads and per-read() delays. Verdict: all runs of a call set have the same (exit status, stdout bytes). Non-trivial: a call set with "
         ">= 2 records observed under >= 8 configurations incl. >= 2 containers; distinct = digest(call set, map). Thorough adds TSan (binary) and "
@@ -27,7 +27,7 @@ FLOORS = {"quick": {"evaluations": 5000, "distinct_nontrivial": 100, "counts": {
           "thorough": {"evaluations": 60000, "distinct_nontrivial": 600, "counts": {"runs": 60000, "callsets": 900}}}
 NSHARD = 32
 THREADS = [1, 2, 3, 4, 8, 16]
-LAYOUTS = ["single", "unit", "random", "midrecord", "stored", "empties", "double_eof", "tiny", "tinyfirst", "odd_header"]
+LAYOUTS = ["single", "unit", "random", "midrecord", "stored", "empties", "double_eof", "tiny", "tinyfirst", "odd_header", "no_eof", "stored_eof"]
 ENVS = [{}, {"LANG": "de_DE.UTF-8", "LC_ALL": "tr_TR.UTF-8"}, {"TZ": "Pacific/Kiritimati"}, {"RUST_LOG": "trace"}, {"NO_COLOR": "1", "CLICOLOR_FORCE": "1"},
         {"HOME": ""}, {"RUST_BACKTRACE": "full"}, {"MALLOC_PERTURB_": "165"}]
 
